@@ -254,7 +254,7 @@ def make_classes(spec, world, attrs=None):
                 self._world.note(nm, start, end, kw)
                 return strax.LoopPlugin.compute(self, **kw)
 
-            base_attrs.update(compute_loop=compute_loop, compute=compute)
+            base_attrs.update(compute_loop=compute_loop, compute=compute, loop_over=kinds[deps[0]])
             bases = (strax.LoopPlugin,)
         elif kd == "multi":
             pa, pb = nm + "_a", nm + "_b"
